@@ -35,6 +35,7 @@ type mOrder struct {
 	Group      dtypes.Group
 	State      mtypes.Order_State
 	BidOnChain bool // an open/matched bid of our provider exists
+	BidEver    bool // a bid record of our provider exists for the order (open, matched, closed or lost)
 	BidPrice   sdk.Coin
 	Leased     string // provider that got the lease ("" = none)
 }
@@ -216,6 +217,8 @@ type c13 struct {
 	}
 	nextDSeq  uint64
 	secondBid string
+	// lookups that found a bid already closed: nothing is left to close for those
+	closedLookups map[int]bool
 }
 
 // groupMaxPrice: the order's maximum price, computed independently of GroupSpec.Price().
@@ -249,6 +252,15 @@ func (x *c13) respond(c *Call) (interface{}, error) {
 			r.Count("probe:catchup-found-existing-bid")
 			return &mtypes.QueryBidResponse{Bid: mtypes.Bid{BidID: in.ID, State: mtypes.BidOpen, Price: o.BidPrice}}, nil
 		}
+		if o != nil && o.BidEver {
+			// the record of a bid that was closed while the order stayed open is still on chain
+			r.Count("probe:catchup-found-closed-bid")
+			if x.closedLookups == nil {
+				x.closedLookups = map[int]bool{}
+			}
+			x.closedLookups[c.ID] = true
+			return &mtypes.QueryBidResponse{Bid: mtypes.Bid{BidID: in.ID, State: mtypes.BidClosed, Price: o.BidPrice}}, nil
+		}
 		return nil, errors.New("rpc error: code = NotFound desc = invalid bid: bid not found: key not found")
 	case "Query.Orders":
 		res := &mtypes.QueryOrdersResponse{}
@@ -270,6 +282,12 @@ func (x *c13) respond(c *Call) (interface{}, error) {
 			if o == nil || o.State != mtypes.OrderOpen {
 				return nil, errOrderGone
 			}
+			if o.BidEver && !o.BidOnChain && x.secondBid == "" {
+				// the chain keeps the closed bid's record: a second bid for the order is refused there,
+				// and "at most one bid per order" is broken here
+				x.secondBid = fmt.Sprintf("create-bid for %s broadcast at step %d by incarnation %d although the provider had already bid on this order (that bid was closed, the order stayed open)", mquery.OrderPath(msg.Order), c.Start, c.Inc)
+				return nil, errors.New("rpc error: invalid bid: bid exists for provider")
+			}
 			if o.BidOnChain {
 				// the provider (this or an earlier incarnation of it) already has a bid on this order
 				if x.secondBid == "" {
@@ -278,6 +296,7 @@ func (x *c13) respond(c *Call) (interface{}, error) {
 				return nil, errors.New("rpc error: invalid bid: bid exists for provider")
 			}
 			o.BidOnChain = true
+			o.BidEver = true
 			o.BidPrice = msg.Price
 			return nil, nil
 		case *mtypes.MsgCloseBid:
@@ -409,8 +428,10 @@ func runC13(r *core.Run) *core.Violation {
 	if r.Bool(30, "knob.preexisting") {
 		o := x.newOrder()
 		if r.Bool(65, "knob.preexisting.bid") {
-			o.BidOnChain = true
+			o.BidEver = true
 			o.BidPrice = o.Group.GroupSpec.Price()
+			// ... which an earlier incarnation may have closed again (bid timeout) while the order stayed open
+			o.BidOnChain = !r.Bool(25, "knob.preexisting.bid-closed")
 		}
 		m.outbox = nil // the provider was not running when it was created
 	}
@@ -667,6 +688,7 @@ func (x *c13) crashRestart() *core.Violation {
 			if msg, ok := c.Args.(*mtypes.MsgCreateBid); ok && r.Bool(50, "crash.applied") {
 				if o := x.m.order(msg.Order); o != nil && o.State == mtypes.OrderOpen && !o.BidOnChain {
 					o.BidOnChain = true
+					o.BidEver = true
 					o.BidPrice = msg.Price
 					r.Count("probe:crash-with-bid-applied")
 				}
@@ -819,7 +841,9 @@ func (x *c13) checkObligations() *core.Violation {
 				case c.Key == "Tx.CreateBid "+k && c.OK:
 					placed = append(placed, c)
 				case c.Key == "Query.Bid "+k && c.OK:
-					placed = append(placed, c) // bid found at catch-up
+					if !x.closedLookups[c.ID] {
+						placed = append(placed, c) // open bid found at catch-up
+					}
 				case c.Key == "Tx.CloseBid "+k:
 					// submitted = handed to the transaction client while it still takes requests; a call
 					// abandoned because its own context was already cancelled never reached the broadcaster
